@@ -39,7 +39,8 @@ func TestVerifSimAck(t *testing.T) {
 		Stub:  []string{"clock (AckTrackerOptions.Now, tape-driven)", "callers (tape-driven operation generator, 1-4 tasks)"},
 		Rule: "One run = one tracker (1/2/32 shards, optional per-session limit) driven by up to 60-110 tape-chosen operations over a small identity universe; " +
 			"sequential mode compares every result and PendingCount with the reference set after every operation; concurrent mode (1 run in 3) overlaps the invoke/return windows of 2-4 tasks and adds a porcupine check. " +
-			"Non-trivial = at least 10 operations, at least one identity held a committed delivery together with an in-flight re-delivery (or two attempts), and at least one identity was removed.",
+			"Non-trivial = at least 10 operations, at least one identity held a committed delivery together with an in-flight re-delivery (or two attempts), and at least one identity was removed. " +
+			"About 1 run in 10 is a large-backlog history (sequential only, never given to porcupine): 1100-3500 deliveries bound in bulk over 1-40 sessions with default/1/4/32/65/128 shards, then 8-25 sweeps, acks, session closes, re-deliveries and clock moves; non-trivial = at least one identity was removed.",
 		Assumptions: []string{"operations are interleaved whole (no interleaving inside a multi-shard batch operation)",
 			"tokens are opaque: the model accepts any fresh non-zero token",
 			"metadata returned for an identity that was never committed may be that of any of its in-flight attempts"},
@@ -76,7 +77,8 @@ type akModel struct {
 	now     int64
 	entries map[akKey]*akEntry
 	used    map[uint64]bool
-	key     string // canonical encoding (porcupine state equality)
+	sc      map[akSess]int // derived per-session counts (nil = not built)
+	key     string         // canonical encoding (porcupine state equality)
 }
 
 func newAkModel(max int, now int64) *akModel {
@@ -140,14 +142,28 @@ func (m *akModel) rekey() {
 	m.key = sb.String()
 }
 
+type akSess struct {
+	uid string
+	sid uint64
+}
+
+// sessionCount is the number of outstanding identities of one (uid, session);
+// the per-session index is derived lazily and kept in step by bindOne and del.
 func (m *akModel) sessionCount(uid string, sid uint64) int {
-	n := 0
-	for k := range m.entries {
-		if k.uid == uid && k.sid == sid {
-			n++
+	if m.sc == nil {
+		m.sc = map[akSess]int{}
+		for k := range m.entries {
+			m.sc[akSess{k.uid, k.sid}]++
 		}
 	}
-	return n
+	return m.sc[akSess{uid, sid}]
+}
+
+func (m *akModel) del(k akKey) {
+	if _, ok := m.entries[k]; ok && m.sc != nil {
+		m.sc[akSess{k.uid, k.sid}]--
+	}
+	delete(m.entries, k) // (the only direct delete)
 }
 
 type akOpKind int
@@ -224,6 +240,9 @@ func (m *akModel) bindOne(p PendingRecvAck, tok uint64) (added bool) {
 		e = &akEntry{}
 		m.entries[k] = e
 		added = true
+		if m.sc != nil {
+			m.sc[akSess{k.uid, k.sid}]++
+		}
 	}
 	e.attempts = append(e.attempts, akAttempt{tok: tok, meta: m.metaOf(p)})
 	m.used[tok] = true
@@ -268,7 +287,7 @@ func (e *akEntry) metaAllowed(p PendingRecvAck) bool {
 // removes (keys) and validates each one's metadata.
 func (m *akModel) checkRemoved(got []PendingRecvAck, want []akKey) (bool, string) {
 	if len(got) != len(want) {
-		return false, fmt.Sprintf("removed %d identities, reference removes %d (%v)", len(got), len(want), want)
+		return false, fmt.Sprintf("removed %d identities, reference removes %d %s", len(got), len(want), akBrief(want))
 	}
 	seen := map[akKey]bool{}
 	wantSet := map[akKey]bool{}
@@ -305,6 +324,7 @@ func (m *akModel) step(in akIn, out akOut) (bool, string) {
 		return true, ""
 	case akReset:
 		m.entries = map[akKey]*akEntry{}
+		m.sc = nil
 		return true, ""
 	case akBindResult, akBind:
 		p := in.items[0]
@@ -315,7 +335,7 @@ func (m *akModel) step(in akIn, out akOut) (bool, string) {
 			}
 			if allowed {
 				// compatibility bind = reserve + finish; its token is internal
-				tok := ^uint64(0) - uint64(len(m.used))
+				tok := uint64(1)<<62 + uint64(len(m.used)) // far from both ends of the real token counter
 				m.bindOne(p, tok)
 				m.finishOne(p, tok)
 			}
@@ -412,7 +432,7 @@ func (m *akModel) step(in akIn, out akOut) (bool, string) {
 					}
 				}
 				if canceled && !e.committed && len(e.attempts) == 0 {
-					delete(m.entries, k)
+					m.del(k)
 					removed = true
 				}
 			}
@@ -441,7 +461,7 @@ func (m *akModel) step(in akIn, out akOut) (bool, string) {
 			if !e.metaAllowed(out.pend[0]) {
 				return false, fmt.Sprintf("Ack(%v) returned metadata seq=%d at=%d that belongs to neither its committed delivery nor an in-flight attempt", k, out.pend[0].MessageSeq, out.pend[0].DeliveredAt)
 			}
-			delete(m.entries, k)
+			m.del(k)
 		}
 		return true, ""
 	case akClosed:
@@ -458,7 +478,7 @@ func (m *akModel) step(in akIn, out akOut) (bool, string) {
 			return false, "SessionClosed " + why
 		}
 		for _, k := range want {
-			delete(m.entries, k)
+			m.del(k)
 		}
 		return true, ""
 	case akExpire:
@@ -483,7 +503,7 @@ func (m *akModel) step(in akIn, out akOut) (bool, string) {
 			return false, fmt.Sprintf("Expire(%v) at t=%d ", in.ttl, m.now) + why
 		}
 		for _, k := range want {
-			delete(m.entries, k)
+			m.del(k)
 		}
 		return true, ""
 	}
@@ -561,14 +581,37 @@ func akRow(p PendingRecvAck) string {
 	return fmt.Sprintf("%s/%d/%d#%d@%d", p.UID, p.SessionID, p.MessageID, p.MessageSeq, p.DeliveredAt)
 }
 
-func akDescribe(in akIn, out akOut) string {
-	rows := make([]string, len(in.items))
-	for i, p := range in.items {
-		rows[i] = akRow(p)
+// akBrief keeps trace lines of bulk operations short: beyond 8 elements it
+// prints the count, the first and last element and an order-insensitive
+// fingerprint of the whole list.
+func akBrief[T any](xs []T) string {
+	if len(xs) <= 8 {
+		return fmt.Sprint(xs)
 	}
-	outRows := []string{}
+	var sum uint64
+	for _, x := range xs {
+		h := uint64(14695981039346656037)
+		for _, b := range []byte(fmt.Sprint(x)) {
+			h = (h ^ uint64(b)) * 1099511628211
+		}
+		sum += h
+	}
+	return fmt.Sprintf("[%d items: %v .. %v fp=%x]", len(xs), xs[0], xs[len(xs)-1], sum)
+}
+
+func akDescribe(in akIn, out akOut) string {
+	rowList := make([]string, len(in.items))
+	for i, p := range in.items {
+		rowList[i] = akRow(p)
+	}
+	outList := []string{}
 	for _, p := range akSortPend(out.pend) {
-		outRows = append(outRows, akRow(p))
+		outList = append(outList, akRow(p))
+	}
+	rows, outRows := akBrief(rowList), akBrief(outList)
+	if in.kind == akBindBatch || in.kind == akFinishBatch {
+		return fmt.Sprintf("%s %s toks(in)=%s idx=%s -> toks=%s bound=%d added=%d shards=%d n=%d finished=%d", akKindName[in.kind], rows,
+			akBrief(in.toks), akBrief(in.idx), akBrief(out.toks), out.nbound, out.nadded, out.shards, out.count, out.finished)
 	}
 	switch in.kind {
 	case akClock:
@@ -622,6 +665,13 @@ type akCfg struct {
 	tasks      int
 	ops        int
 	w          []int // operation weights
+	// large backlog regime (about one run in ten)
+	large     bool
+	bigN      int // deliveries bound in bulk
+	bigSess   int // sessions they are spread over
+	sidBase   uint64
+	chunk     int // rows per BindBatch / FinishBindBatch call
+	tokenWrap int // >0: the token counter starts this many allocations before wrapping through zero
 }
 
 type akGen struct {
@@ -752,6 +802,27 @@ func (g *akGen) learn(in akIn, out akOut) {
 func akDrawCfg(r *simkit.Run) akCfg {
 	tp := r.Tape
 	c := akCfg{}
+	if tp.Weighted([]int{9, 1}) == 1 {
+		// large backlog: thousands of deliveries, so that every size constant of
+		// the tracker (default 32 shards, 64-shard and 128/512-entry stack
+		// buffers, a 1024 per-session limit) is crossed
+		c.large = true
+		c.shards = []int{0, 1, 4, 32, 65, 128}[tp.Intn(6)]
+		c.max = []int{0, 1024, 200}[tp.Intn(3)]
+		c.bigSess = 1 + tp.Intn(40)
+		c.bigN = 1100 + tp.Intn(2401)
+		c.sidBase = []uint64{1, 30, 1000}[tp.Intn(3)]
+		c.chunk = []int{1000, 129, 600, 100}[tp.Intn(4)]
+		c.noFaults = tp.Intn(4) == 0
+		c.ops = 8 + tp.Intn(18)
+		if tp.Intn(4) == 0 {
+			c.tokenWrap = 1 + tp.Intn(2000)
+		}
+		return c
+	}
+	if tp.Intn(8) == 7 {
+		c.tokenWrap = 1 + tp.Intn(6)
+	}
 	c.shards = []int{32, 1, 2}[tp.Intn(3)]
 	c.max = []int{0, 2, 1, 3}[tp.Intn(4)]
 	c.uids = []string{"a", "b", "c"}[:1+tp.Intn(3)]
@@ -802,12 +873,127 @@ func (m *akModel) observe(r *simkit.Run, st *akStats, in akIn, before int) {
 	}
 }
 
+// akLargeBacklog is the large-backlog regime: thousands of deliveries are bound
+// in bulk over 1-40 sessions (mostly idle, some fresh, a few left in flight),
+// then expired in one or several sweeps interleaved with acks, session closes,
+// re-deliveries and clock moves. Every call goes through exec, i.e. is compared
+// with the reference set and followed by the PendingCount check.
+func akLargeBacklog(r *simkit.Run, c akCfg, tr *AckTracker, now *int64, m *akModel, g *akGen, st *akStats, exec func(string, akIn) (akOut, bool)) {
+	tp := r.Tape
+	if c.bigSess >= defaultAckTrackerShardCount && len(tr.shards) == defaultAckTrackerShardCount {
+		r.Probe("const.sessions_wrap_around_default_32_shards")
+	}
+	sess := func(k int) (string, uint64) { return fmt.Sprintf("u%d", k%3), c.sidBase + uint64(k) }
+	all := make([]PendingRecvAck, 0, c.bigN)
+	// spread: round robin (every session about equally loaded) or skewed (the
+	// first session takes half, which reaches a 1024 per-session limit)
+	skew := tp.Intn(2) == 1
+	perSessMid := map[int]uint64{}
+	for i := 0; i < c.bigN; i++ {
+		k := i % c.bigSess
+		if skew && i%2 == 0 {
+			k = 0
+		}
+		perSessMid[k]++
+		uid, sid := sess(k)
+		g.seq++
+		p := PendingRecvAck{UID: uid, SessionID: sid, MessageID: perSessMid[k], MessageSeq: g.seq, ChannelID: "c", ChannelType: 2, DeliveredAt: *now - 120 - int64(i%3)}
+		if tp.Chance(1, 20) {
+			p.DeliveredAt = 0 // fresh: stamped by the tracker's clock
+		}
+		all = append(all, p)
+	}
+	var inflight []akTokRec
+	for start := 0; start < len(all) && !r.Failed(); start += c.chunk {
+		end := start + c.chunk
+		if end > len(all) {
+			end = len(all)
+		}
+		items := all[start:end]
+		out, ok := exec("bulk", akIn{kind: akBindBatch, items: items})
+		if !ok {
+			return
+		}
+		idx := make([]int, 0, len(items))
+		for i := range items {
+			if (start+i)%53 == 7 && out.toks[i] != 0 {
+				inflight = append(inflight, akTokRec{tok: out.toks[i], item: items[i]}) // this delivery stays in flight
+				continue
+			}
+			idx = append(idx, i)
+		}
+		if _, ok := exec("bulk", akIn{kind: akFinishBatch, items: items, toks: out.toks, idx: idx}); !ok {
+			return
+		}
+	}
+	exec("bulk", akIn{kind: akCount})
+	pick := func() PendingRecvAck { return all[tp.Intn(len(all))] }
+	for i := 0; i < c.ops && !r.Failed(); i++ {
+		w := []int{5, 3, 2, 1, 2, 2, 1, 1, 1}
+		if len(inflight) == 0 {
+			w[6], w[7] = 0, 0
+		}
+		switch tp.Weighted(w) {
+		case 0:
+			exec("big", akIn{kind: akExpire, ttl: 60 * time.Second})
+		case 1:
+			p := pick()
+			exec("big", akIn{kind: akAck, items: []PendingRecvAck{{UID: p.UID, SessionID: p.SessionID, MessageID: p.MessageID}}})
+		case 2:
+			uid, sid := sess(tp.Intn(c.bigSess))
+			exec("big", akIn{kind: akClosed, items: []PendingRecvAck{{UID: uid, SessionID: sid}}})
+		case 3:
+			exec("big", akIn{kind: akCount})
+		case 4:
+			exec("big", akIn{kind: akClock, dt: int64([]int{1, 30, 61, 200}[tp.Intn(4)])})
+		case 5:
+			// re-delivery of a handful of identities (fresh attempts protect them from the next sweep)
+			n := 1 + tp.Intn(20)
+			items := make([]PendingRecvAck, 0, n)
+			for j := 0; j < n; j++ {
+				p := pick()
+				g.seq++
+				p.MessageSeq, p.DeliveredAt = g.seq, 0
+				items = append(items, p)
+			}
+			out, ok := exec("big", akIn{kind: akBindBatch, items: items})
+			if ok {
+				for j, t := range out.toks {
+					if t != 0 {
+						inflight = append(inflight, akTokRec{tok: t, item: items[j]})
+					}
+				}
+			}
+		case 6:
+			rec := inflight[tp.Intn(len(inflight))]
+			exec("big", akIn{kind: akCancel, items: []PendingRecvAck{rec.item}, toks: []uint64{rec.tok}})
+		case 7:
+			rec := inflight[tp.Intn(len(inflight))]
+			exec("big", akIn{kind: akFinish, items: []PendingRecvAck{rec.item}, toks: []uint64{rec.tok}})
+		case 8:
+			exec("big", akIn{kind: akExpire, ttl: 500 * time.Second})
+		}
+	}
+	if !r.Failed() {
+		// drain: sweep until nothing is idle any more, then the count must match again
+		exec("big", akIn{kind: akClock, dt: 100})
+		exec("big", akIn{kind: akExpire, ttl: 60 * time.Second})
+		exec("big", akIn{kind: akCount})
+	}
+}
+
 func runAckSim(t *testing.T, r *simkit.Run) {
 	c := akDrawCfg(r)
 	r.Config = map[string]any{"shards": c.shards, "max_per_session": c.max, "uids": len(c.uids), "sids": len(c.sids), "mids": c.mids,
-		"nofaults": c.noFaults, "concurrent": c.concurrent, "tasks": c.tasks, "ops": c.ops}
+		"nofaults": c.noFaults, "concurrent": c.concurrent, "tasks": c.tasks, "ops": c.ops,
+		"large": c.large, "big_n": c.bigN, "big_sessions": c.bigSess, "sid_base": c.sidBase, "chunk": c.chunk, "token_wrap": c.tokenWrap}
 	now := int64(1000)
 	tr := NewAckTracker(AckTrackerOptions{ShardCount: c.shards, MaxPendingPerSession: c.max, Now: func() int64 { return now }})
+	if c.tokenWrap > 0 {
+		// the 64-bit token counter wraps during this run; zero must be skipped
+		tr.nextBindToken.Store(^uint64(0) - uint64(c.tokenWrap))
+		r.Probe("const.token_counter_wraps_through_zero")
+	}
 	m := newAkModel(c.max, now)
 	g := &akGen{r: r, cfg: c, now: &now}
 	st := &akStats{}
@@ -856,7 +1042,15 @@ func runAckSim(t *testing.T, r *simkit.Run) {
 		ok, why := m.step(in, out)
 		if !ok {
 			class := "ack-" + strings.ToLower(akKindName[in.kind])
-			r.FailSig(class, "", fmt.Sprintf("%s: %s", akDescribe(in, out), why), map[string]any{"op": akKindName[in.kind]})
+			sig := ""
+			if in.kind == akExpire || in.kind == akClosed || in.kind == akAck {
+				// is the derived count at least consistent with what the call itself returned?
+				if got := tr.PendingCount(); got != before-len(out.pend) {
+					sig = "count-drift"
+					why += fmt.Sprintf("; moreover PendingCount=%d although %d identities were outstanding before the call and it returned %d removed", got, before, len(out.pend))
+				}
+			}
+			r.FailSig(class, sig, fmt.Sprintf("%s: %s", akDescribe(in, out), why), map[string]any{"op": akKindName[in.kind]})
 			return out, false
 		}
 		// PendingCount equals the reference set after every operation
@@ -872,7 +1066,33 @@ func runAckSim(t *testing.T, r *simkit.Run) {
 			r.Probe("expire_protected_by_fresh_attempt")
 		}
 		switch in.kind {
+		case akBindBatch:
+			valid := 0
+			for _, p := range in.items {
+				if akValid(p) {
+					valid++
+				}
+			}
+			if valid > ackBindBatchStackEntries {
+				r.Probe("const.bind_batch_over_128_rows")
+			}
+			if len(tr.shards) > ackBindBatchStackShards {
+				r.Probe("const.batch_over_64_shards")
+			}
+			if out.nbound < valid {
+				r.Probe("batch_rows_rejected_by_session_limit")
+				if c.max >= 1024 {
+					r.Probe("const.session_limit_1024_reached")
+				}
+			}
+		case akFinishBatch:
+			if len(in.idx) > localAckFinishBatchStackEntries {
+				r.Probe("const.finish_batch_over_512_rows")
+			}
 		case akExpire:
+			if len(out.pend) > 1024 {
+				r.Probe("expire_removed_more_than_1024_in_one_call")
+			}
 			if len(out.pend) > 0 {
 				r.Probe("expire_removed")
 			}
@@ -908,6 +1128,12 @@ func runAckSim(t *testing.T, r *simkit.Run) {
 		return out, true
 	}
 
+	if c.large {
+		akLargeBacklog(r, c, tr, &now, m, g, st, exec)
+		r.SimTime += time.Duration(now-1000) * time.Second
+		r.Nontrivial = st.removed
+		return
+	}
 	if !c.concurrent {
 		for i := 0; i < c.ops && !r.Failed(); i++ {
 			exec("seq", g.draw())
